@@ -173,8 +173,8 @@ MIRSYM("insert_items_step", ["C01", "C15", "C04"],
        "insert_items_in_file from any pre-state satisfying Inv: afterwards the tree reaches exactly I u N, each item once, no dangling/orphan node; every over-full bucket is reported in large_descendants by node id and everything reported is a bucket",
        _TREE_BOUNDS, _lazy("e2_tree", "insert_obligation"), site="Writer::insert_items_in_file")
 
-MIRSYM("delete_items_step", ["C01", "C04"],
-       "delete_items_in_file from any pre-state satisfying Inv and any set to delete: the returned root's tree reaches exactly I minus D, each once, no reference to a deleted item or removed node, no orphan; the returned item set is I minus D",
+MIRSYM("delete_items_step", ["C01", "C04", "C15"],
+       "delete_items_in_file from any pre-state satisfying Inv and any set to delete: the returned root's tree reaches exactly I minus D, each once, no reference to a deleted item or removed node, no orphan; the returned item set is I minus D; with a constant capacity no bucket above split_after appears",
        _TREE_BOUNDS, _lazy("e2_tree", "delete_obligation"), site="Writer::delete_items_in_file")
 MIRSYM("delete_extra_trees_step", ["C15", "C01", "C10"],
        "delete_extra_trees on a two-tree forest whose deleted items are already gone from the store: succeeds, removes max(0, roots - target) trees (oldest first) with all their nodes, leaves the other tree intact",
